@@ -682,6 +682,45 @@ def check_line(name, is_template, lang_str, proposal_names):
             orc.append(f'{hexchars(e)}={j}:{per}')
     return f'charset check {hexchars(name)} {int(is_template)} {d} {"~" if codec is None else hexchars(codec)} {cs} {";".join(orc) or "~"}'
 
+_CNS = {}
+def euctw_cns_oracle(b):
+    """the CNS 11643 entries a decoder of `b` could touch, asked of iconv one unit at a time: `p.r.c=cp;…`"""
+    R = ref()
+    ent = {}
+    hi = lambda x: 0xA1 <= x <= 0xFE
+    for i in range(len(b)):
+        cands = []
+        if i + 1 < len(b) and hi(b[i]) and hi(b[i + 1]):
+            cands.append(((1, b[i], b[i + 1]), bytes(b[i:i + 2])))
+        if b[i] == 0x8E and i + 3 < len(b) and hi(b[i + 1]):
+            cands.append(((b[i + 1] - 0xA0, b[i + 2], b[i + 3]), bytes(b[i:i + 4])))
+        for key, unit in cands:
+            if key not in _CNS:
+                r = R.decode('EUC-TW', unit)
+                _CNS[key] = ord(r[1]) if r[0] == 'ok' and len(r[1]) == 1 else None
+            if _CNS[key] is not None:
+                ent[key] = _CNS[key]
+    return ';'.join(f'{p:x}.{r:x}.{c:x}={cp:x}' for (p, r, c), cp in sorted(ent.items())) or '~'
+
+_INV = {}
+def euctw_inv_oracle(t):
+    R = ref()
+    ent = {}
+    for ch in set(t):
+        if ord(ch) <= 0x7F:
+            continue
+        if ch not in _INV:
+            r = R.encode('EUC-TW', ch)
+            v = None
+            if r[0] == 'ok' and len(r[1]) == 2:
+                v = (1, r[1][0], r[1][1])
+            elif r[0] == 'ok' and len(r[1]) == 4 and r[1][0] == 0x8E:
+                v = (r[1][1] - 0xA0, r[1][2], r[1][3])
+            _INV[ch] = v
+        if _INV[ch] is not None:
+            ent[ord(ch)] = _INV[ch]
+    return ';'.join(f'{cp:x}={p:x}.{r:x}.{c:x}' for cp, (p, r, c) in sorted(ent.items())) or '~'
+
 def build_streams(chk, names, sizes):
     """{family: (lines, impl outputs)}; `names` = the name pool"""
     rng = chk.rng
@@ -760,6 +799,33 @@ def build_streams(chk, names, sizes):
                 rounds = [(r[0] if r[0] is not None else 0,) + r[1:] for r in rounds]
                 lines.append(f'charset encloop {len(t)} 60 {script_text(rounds)}'); outs.append(out)
     fam['loop-real'] = (lines, outs)
+    # ---- EUC-TW: the structural model against the tool's codec; the CNS tables are asked of iconv unit by unit
+    lines, outs = [], []
+    if R.ok and R.cd('UTF-32LE', 'EUC-TW') is not None:
+        seen_text = set()
+        for b in [x for c, x in CORPUS_BYTES if c == 'EUC-TW'] + G.byte_strings_euctw(rng, sizes['euctw'], plane_sample=sizes['euctw']):
+            if not b:
+                continue
+            lines.append(f'charset euctw-dec {hexbytes(b)} {euctw_cns_oracle(b)}')
+            out, sess = impl_real_decode('EUC-TW', b)
+            head = out.split(' trace=')[0]
+            if head.startswith('uerr'):
+                kind = sess.recorded[-1][2][0] if sess.recorded else '?'
+                head = f'err {head.split(" ")[1]} {kind}'
+            outs.append(head)
+            if head.startswith('ok ') and len(seen_text) < sizes['euctw']:
+                seen_text.add(b.decode('EUC-TW'))
+        for t in sorted(seen_text) + G.texts(rng, sorted(set(''.join(seen_text))), sizes['euctw'] // 4):
+            if not t:
+                continue
+            try:
+                t.encode('utf-32-le')
+            except UnicodeEncodeError:
+                continue
+            lines.append(f'charset euctw-enc {hexchars(t)} {euctw_inv_oracle(t)}')
+            out = impl_real_encode('EUC-TW', t)[0].split(' trace=')[0]
+            outs.append('err ' + out.split(' ')[1] if out.startswith('uerr') else out)
+    fam['euctw'] = (lines, outs)
     # ---- character lists
     lines, outs = [], []
     sects = language_sections()
